@@ -167,7 +167,7 @@ func (c *Ctx) genSquareCase(maxChoices []int) sqCase {
 				}
 			}
 		}
-		btx, _, _ := tx.UnmarshalBlobTx(raw)
+		btx := mustBlobTx(raw)
 		sc.txs = append(sc.txs, genTx{raw: raw, isBlob: true, inner: btx.Tx, blobs: specs, canon: canon})
 		d = append(d, "b["+strings.Join(bd, " ")+"]")
 		if canon == nil && c.rng.Chance(1, 12) {
@@ -492,7 +492,7 @@ func (c *Ctx) squareCase(sc sqCase) {
 	}
 	if indexesOK {
 		for i, k := range keptB {
-			btx, _, _ := tx.UnmarshalBlobTx(k)
+			btx := mustBlobTx(k)
 			iw, ok := tx.UnmarshalIndexWrapper(wp[i])
 			if !ok || len(iw.ShareIndexes) != len(btx.Blobs) || !bytes.Equal(iw.Tx, btx.Tx) {
 				indexesOK = false
@@ -837,7 +837,7 @@ func (c *Ctx) manySequencesCase() {
 			specs[j] = c.randBlob(pool[(t+j)%3], c.rng.Range(1, 400), (t+j)%5 == 0)
 		}
 		raw := c.makeBlobTx(specs, 20)
-		btx, _, _ := tx.UnmarshalBlobTx(raw)
+		btx := mustBlobTx(raw)
 		sc.txs = append(sc.txs, genTx{raw: raw, isBlob: true, inner: btx.Tx, blobs: specs})
 	}
 	sc.desc = fmt.Sprintf("max=64 thr=%d t200 36 x b[30 one-share blobs]", sc.thr)
@@ -859,7 +859,7 @@ func (c *Ctx) hugeBlobCases() {
 	for vi, n := range sizes {
 		spec := c.randBlob(ns, n, vi%2 == 1)
 		raw := c.makeBlobTx([]blobSpec{spec}, 10)
-		btx, _, _ := tx.UnmarshalBlobTx(raw)
+		btx := mustBlobTx(raw)
 		sc := sqCase{max: 256, thr: 64}
 		if vi == 0 {
 			sc.txs = append(sc.txs, genTx{raw: c.normalTx(300)})
@@ -928,7 +928,7 @@ func (c *Ctx) hugeTxCases() {
 			if variant == 1 {
 				one := []blobSpec{c.randBlob(pool[0], 600, false)}
 				raw2 := c.makeBlobTx(one, 10)
-				btx2, _, _ := tx.UnmarshalBlobTx(raw2)
+				btx2 := mustBlobTx(raw2)
 				sc.txs = append(sc.txs, genTx{raw: raw2, isBlob: true, inner: btx2.Tx, blobs: one})
 				sc.desc += " b[v0:600]"
 			}
@@ -967,7 +967,7 @@ func (c *Ctx) manyBlobCases() {
 			}
 			sc.txs = append(sc.txs, genTx{raw: c.normalTx(20)})
 			raw := c.makeBlobTx(specs, filler)
-			btx, _, _ := tx.UnmarshalBlobTx(raw)
+			btx := mustBlobTx(raw)
 			sc.txs = append(sc.txs, genTx{raw: raw, isBlob: true, inner: btx.Tx, blobs: specs})
 			if lone {
 				sc.desc = fmt.Sprintf("max=%d thr=%d t20 b[%d blobs, filler %d]", sc.max, sc.thr, nb, filler)
@@ -975,7 +975,7 @@ func (c *Ctx) manyBlobCases() {
 			}
 			one := []blobSpec{c.randBlob(pool[1], 100, false)}
 			raw2 := c.makeBlobTx(one, 10)
-			btx2, _, _ := tx.UnmarshalBlobTx(raw2)
+			btx2 := mustBlobTx(raw2)
 			sc.txs = append(sc.txs, genTx{raw: raw2, isBlob: true, inner: btx2.Tx, blobs: one})
 			sc.desc = fmt.Sprintf("max=%d thr=%d t20 b[%d blobs, filler %d] b[v0:100]", sc.max, sc.thr, nb, filler)
 			return sc
@@ -1048,12 +1048,12 @@ func (c *Ctx) fullSquareCases() {
 					// the same blobs paid for by two transactions
 					for _, part := range [][]blobSpec{specs[:nb/2], specs[nb/2:]} {
 						raw := c.makeBlobTx(part, 5)
-						btx, _, _ := tx.UnmarshalBlobTx(raw)
+						btx := mustBlobTx(raw)
 						sc.txs = append(sc.txs, genTx{raw: raw, isBlob: true, inner: btx.Tx, blobs: part})
 					}
 				} else {
 					raw := c.makeBlobTx(specs, 5)
-					btx, _, _ := tx.UnmarshalBlobTx(raw)
+					btx := mustBlobTx(raw)
 					sc.txs = append(sc.txs, genTx{raw: raw, isBlob: true, inner: btx.Tx, blobs: specs})
 				}
 				sc.desc = fmt.Sprintf("max=%d thr=64 full square: %d exact-fit version-%d blobs of %d bytes (split=%v)", max, nb, map[bool]int{false: 0, true: 1}[v1], size, split)
@@ -1091,7 +1091,7 @@ func (c *Ctx) exhaustiveSmallScope() {
 		return func() genTx {
 			spec := c.randBlob(ns, n, v1)
 			raw := c.makeBlobTx([]blobSpec{spec}, 10)
-			btx, _, _ := tx.UnmarshalBlobTx(raw)
+			btx := mustBlobTx(raw)
 			return genTx{raw: raw, isBlob: true, inner: btx.Tx, blobs: []blobSpec{spec}}
 		}
 	}
@@ -1285,7 +1285,7 @@ func streamBHist(c *Ctx) {
 					if t.noBlobs {
 						f.AppendBlobTx(&tx.BlobTx{Tx: t.inner})
 					} else if t.isBlob {
-						btx, _, _ := tx.UnmarshalBlobTx(t.raw)
+						btx := mustBlobTx(t.raw)
 						f.AppendBlobTx(btx)
 					} else {
 						f.AppendTx(t.raw)
@@ -1386,7 +1386,7 @@ func streamBHist(c *Ctx) {
 				kind := "tx"
 				if t.isBlob {
 					kind = "btx"
-					btx, _, _ := tx.UnmarshalBlobTx(t.raw)
+					btx := mustBlobTx(t.raw)
 					if c.rng.Bool() {
 						// the in-memory route: the caller's own Blob objects (not re-decoded from bytes), e.g. with the
 						// exact signer slice they were created with
@@ -1518,7 +1518,7 @@ func streamBHist(c *Ctx) {
 				if t.noBlobs {
 					fresh.AppendBlobTx(&tx.BlobTx{Tx: t.inner})
 				} else if t.isBlob {
-					btx, _, _ := tx.UnmarshalBlobTx(t.raw)
+					btx := mustBlobTx(t.raw)
 					fresh.AppendBlobTx(btx)
 				} else {
 					fresh.AppendTx(t.raw)
@@ -1551,7 +1551,7 @@ func init() {
 
 func (c *Ctx) fixedBlobTx(specs []blobSpec) genTx {
 	raw := c.makeBlobTx(specs, 10)
-	btx, _, _ := tx.UnmarshalBlobTx(raw)
+	btx := mustBlobTx(raw)
 	return genTx{raw: raw, isBlob: true, inner: btx.Tx, blobs: specs}
 }
 
@@ -1578,7 +1578,7 @@ func streamKF1(c *Ctx) {
 		b, _ := square.NewBuilder(sc.max, sc.thr)
 		c.emit(fmt.Sprintf("b new %d %d", sc.max, sc.thr), "ok")
 		for _, t := range sc.txs {
-			btx, _, _ := tx.UnmarshalBlobTx(t.raw)
+			btx := mustBlobTx(t.raw)
 			acc := b.AppendBlobTx(btx)
 			c.emit("b tx "+hx(t.raw), fmt.Sprintf("btx acc=%s size=%d", b2s(acc), b.CurrentSize()))
 		}
